@@ -239,7 +239,7 @@ def c06_4(R):
                 R.fail([b.name, "removal-not-under(is_mtu_probe&&!is_delivered)", "guards=" + ",".join(sorted(conds))], "%s can remove (and thereby re-segment) a segment that is not an undelivered MTU probe" % name, where=s.where(), instance="resegment-only-undelivered-probe")
 
 
-@rule("C06.5", ["C06", "C02", "C16"], ["E3"], "an RTO retransmission backs off: congestion controller, RTO estimator and recovery are told, then the timer is re-armed",
+@rule("C06.5", ["C06", "C02", "C16", "C15", "C05"], ["E3"], "an RTO retransmission backs off: congestion controller, RTO estimator and recovery are told, then the timer is re-armed",
       "Both RTO paths of send_tx_queue (first undelivered segment, FIN) call congestion_controller.on_retransmission_timeout, rtte.on_rto_timeout and recovery.on_rto_timeout and then "
       "timers.retransmit.arm(restart = true), under timers.retransmit.expired() = true; for a data segment they are skipped only for MTU probes.")
 def c06_5(R):
